@@ -65,6 +65,16 @@ def run(W, chk):
         X = W.run(fm, "execute", vp)
         all_elements_processed(chk, W, X, r"^Store\(FARMS\)", vp[-1], "LOOP-all-elements")
     farm_expiry_epoch(chk, W.run(fm, "execute", ("ManageFarm", ".action", "Create")), "Create")
+    # a closed farm is removed whether or not anything is left to refund (a fully claimed farm that stays stored keeps occupying the
+    # window the concurrency limit is counted over)
+    from rules.common import independent_of, zero_test
+    for vp in (("ManageFarm", ".action", "Close"), ("ManageFarm", ".action", "Create")):
+        independent_of(chk, W, "NONDEP-remove-vs-refund", fm, vp, "closing", "the refund is zero",
+                       zero_test(lambda v: any(o in ("Store(FARMS).farm_asset.amount", "Store(FARMS).claimed_amount") for o in all_origins(v))),
+                       lambda A: [e for e in A.writes() if e.extra.get("item") == "FARMS" and e.extra.get("sop") == "remove"],
+                       "FARMS.remove is reached whether or not the unclaimed remainder is zero",
+                       "removing a closed farm depends on its unclaimed remainder being (non-)zero: a fully claimed farm is never removed")
+
     # the farms counted against max_concurrent_farms are read up to that maximum (not up to the pagination default)
     from rules.common import farm_enumeration_bound
     farm_enumeration_bound(chk, W.run(fm, "execute", ("ManageFarm", ".action", "Create")), "Create", W)
